@@ -110,6 +110,15 @@ func (p *FunctionBuilder) CreateFunction(m *bmodel.MethodEntry) (*gmodel.Functio
 		srcVar.Name = m.Opts.Receiver
 	}
 
+	names := map[string]bool{"err": m.RetError()}
+	for _, v := range append([]gmodel.Var{srcVar, dstVar}, additionalArgsVars...) {
+		if names[v.Name] && v.Name != "_" {
+			// Among them are the names this tool gives to what the interface leaves unnamed.
+			return nil, logger.Errorf("%v: the name %v would be declared twice in the function", p.fset.Position(m.Method.Pos()), v.Name)
+		}
+		names[v.Name] = true
+	}
+
 	var assignments []gmodel.Assignment
 	var err error
 	if m.Opts.Reverse {
